@@ -1,8 +1,8 @@
 (* C06  Delta-debugging passes are complete: nothing removable is left untried.
    Only statements closed by `exact`; proofs live in Cursor/BinaryProofs.v. *)
-From Coq Require Import List Arith Bool Lia.
+From Coq Require Import List Arith Bool NArith Lia.
 Import ListNotations.
-From CV Require Import Cursor.BinaryState Cursor.BinaryProofs Cursor.IfsCursor Passes.Gcda Passes.GcdaProofs.
+From CV Require Import Cursor.BinaryState Cursor.BinaryProofs Cursor.IfsCursor Passes.Gcda Passes.GcdaProofs Passes.Edit Passes.EditProofs Passes.LinesRoundtrip.
 
 (* Every proposed range is inside the current instance list, for EVERY verdict function
    (of step number, current list and cursor), every list; the run ends within (n+1)(n+2)
@@ -72,6 +72,28 @@ Example C06_example_gcda :
   gcda_transform (gfile [9;9] [[1];[2;2];[3;3;3];[4]]) (offsets 2 [[1];[2;2];[3;3;3];[4]]) (mkb 1 2 4) = [9;9;1;4]
   /\ exists log, gcda_run (ok_mono (fun r => Nat.eqb (hd 0 r) 2)) [[1];[2;2];[3;3;3];[4]] = Done [[2;2]] log.
 Proof. split; [vm_compute; reflexivity|eexists; vm_compute; reflexivity]. Qed.
+
+(* lines / line markers.  The binary-search loop above works on instance lists; the passes work on bytes and re-count
+   their instances in the new file after every accepted removal.  For every text and every range: the candidate of
+   LinesPass, read again, has exactly the lines of the file minus [i, e) - so the count the pass continues with and the
+   instances it then offers are those of the loop model (cut) ... *)
+Theorem C06_lines_candidate_is_line_cut :
+  forall (t : text) (i e : nat), i <= e ->
+  lines (lines_transform t i e) = cut (lines t) i e /\ lines_transform t i e = concat (cut (lines t) i e).
+Proof. exact lines_candidate_is_cut. Qed.
+
+(* ... and the line markers left in the candidate of LineMarkersPass are the markers of the file minus [i, e), for every
+   marker predicate; no other line is touched (C07_selected_lines_removed). *)
+Theorem C06_markers_candidate_is_marker_cut :
+  forall (ismark : text -> bool) (t : text) (i e : nat), i <= e ->
+  filter ismark (lines (markers_transform ismark t i e)) = cut (filter ismark (lines t)) i e.
+Proof. exact markers_candidate_is_cut. Qed.
+
+Example C06_example_lines :
+  lines (lines_transform [97;10;98;10;10;99]%N 1 3) = [[97;10];[99]]%N /\
+  filter (fun l => N.eqb (hd 0%N l) 35) (lines (markers_transform (fun l => N.eqb (hd 0%N l) 35) [35;10;98;10;35;49;10;35]%N 1 2))
+  = [[35;10];[35]]%N.
+Proof. vm_compute. auto. Qed.
 
 Example C06_example_mono :
   reduce (ok_mono (fun x => Nat.eqb x 2 || Nat.eqb x 5)) [0;1;2;3;4;5;6] =
